@@ -36,6 +36,7 @@ func runC18(e *Env) {
 	r.Rule("C18.R6", "paths", "the tick reaches every registered connection: no early exit from the fan-out loops, collecting callbacks never stop the iteration", 6)
 	if e.want("C18.R6") {
 		c18FanOut(e)
+		sweepReachesMonitor(e, "C18.R6")
 	}
 	if e.want("C18.R1") {
 		if f := e.fn("C18.R1", "udp/client.Conn.Process"); f != nil {
